@@ -258,6 +258,28 @@ def on_nz_false(I, st, leaves):
         reject_batch(I, st, items)
 
 
+def on_lanes_clear(I, st, T, lo, hi_lane):
+    """lanes [lo, hi_lane) of mask term T are clear (hi_lane None = up to the end of the chunk)"""
+    from .models import nz_strip
+    c = leaf_info(st, nz_strip(T))
+    if c:
+        n, r, base, size = c
+        reject_batch(I, st, [(n, r, base + lo, base + (hi_lane if hi_lane is not None else size))])
+
+
+def on_needle_differs(I, st, rx, xo, ry, yo, n):
+    """is_equal_raw(needle, haystack + q, needle.len()) was false: the needle does not occur at q"""
+    ps, sr = st.ghost.get('pairspec'), st.ghost.get('search')
+    if not ps or not sr or 'needle' not in ps:
+        return
+    nr, noff, nlen = ps['needle']
+    s = st.store
+    for (ra, oa, rb, ob) in ((rx, xo, ry, yo), (ry, yo, rx, xo)):
+        if ra == nr and rb == sr['region'] and s.entails_eq(oa - noff) and s.entails_eq(n - nlen):
+            reject_batch(I, st, [(ps['sym'], rb, ob, ob + 1)])
+            return
+
+
 def on_zerobyte_false(I, st, t):
     K = ((1 << I.ptr_bits) - 1) // 255
     c = swar_leaf(t, K)
@@ -398,10 +420,12 @@ def check_search_post(I, inst, results, mode, ret_kind, index_base=None, range_c
                     det_f = f"mask covers needles {[s.nf(n) for n in ns]} but the searcher has {[s.nf(n) for n in needles]}"
                 else:
                     bad = []
+                    ll = st.ghost.get('lane_lo', {}).get(lane_sym)
+                    q_eff = q + ll[1] if ll is not None else q      # lanes below `lo` were cleared artificially: they must be covered
                     for n in needles:
                         k, v = _find(st, 'hi' if mode == 'fwd' else 'lo', r, n)
                         if mode == 'fwd':
-                            okn = v is not None and s.entails_le(q - v.off)            # hi >= q
+                            okn = v is not None and s.entails_le(q_eff - v.off)            # hi >= q (+ lo)
                         else:
                             okn = v is not None and s.entails_le(v.off - (q + size))   # lo <= q + size
                         if not okn:
